@@ -128,6 +128,14 @@ class _Env:
         import itertools
         c = self.case
         self.cwd = os.getcwd()
+        if os.path.basename(self.root).startswith("~"):
+            # a name a shell would expand: HOME leads to some other (small) directory for the duration
+            decoy = os.path.join(os.path.dirname(os.path.dirname(self.root)), "home-of-somebody")
+            os.makedirs(decoy, exist_ok=True)
+            with open(os.path.join(decoy, "not-the-payload.txt"), "wb") as fh:
+                fh.write(b"HOME")
+            self.saved["HOME"] = os.environ.get("HOME")
+            os.environ["HOME"] = decoy
         perm = c.get("enum_perm")
         if perm is not None:
             real_listdir, real_scandir = os.listdir, os.scandir
@@ -213,6 +221,11 @@ class _Env:
 
     def __exit__(self, *a):
         os.chdir(self.cwd)
+        if "HOME" in self.saved:
+            if self.saved["HOME"] is None:
+                os.environ.pop("HOME", None)
+            else:
+                os.environ["HOME"] = self.saved["HOME"]
         if "listdir" in self.saved:
             os.listdir, os.scandir = self.saved["listdir"], self.saved["scandir"]
         if "datetime" in self.saved:
